@@ -435,4 +435,39 @@ func TestC13Singles(t *testing.T) {
 	}
 }
 
+// TestC13TokenSweep: one dashed print tag followed by filler tags, for every total token count
+// from 8 to 1300 in ascending order. Buffers that grow with the number of tokens (and are
+// pooled) pass through each of their capacities exactly once on the way.
+func TestC13TokenSweep(t *testing.T) {
+	r := NewRec(t, "C13", "exhaustive: a dashed print tag between whitespace-padded texts, followed by filler print tags and texts so that the template has exactly T tokens, for every T in 8..1300 ascending (below 4096 bytes) and the same with a 4200-byte tail; oracle as in TestC13Dashes; all cases non-trivial")
+	defer r.Flush()
+	r.SetExhaustive()
+	ctx := Ctx{}
+	ctx.Set("a", Int(7))
+	for _, tail := range []int{0, 4200} {
+		for T := 8; T <= 1300; T++ {
+			extra := T - 5
+			k, rem := extra/3, extra%3
+			if len("A  {{- a -}}  B")+k*7+rem > 4000 && tail == 0 {
+				break
+			}
+			body := []*S{Text("A \n "), {K: "print", E: Var("a"), D: []int{3}}, Text(" \t B")}
+			for i := 0; i < k; i++ {
+				if i < rem {
+					body = append(body, Text("t"))
+				}
+				body = append(body, Print(Var("a")))
+			}
+			if tail > 0 {
+				body = append(body, Text("<"+strings.Repeat("p", tail)+">"))
+			}
+			c := C13Case{Ctx: ctx, Set: TSet{{Name: "main", Body: body}}}
+			r.Case(fmt.Sprint(T, tail), true, fmt.Sprintf("%d tokens, tail %d", T, tail))
+			if err := checkC13(c); err != nil {
+				r.FailEnum(t, "C13.dash", c, err)
+			}
+		}
+	}
+}
+
 func init() { reg("C13.dash", checkC13) }
